@@ -123,10 +123,11 @@ def kittySeq (number final : Int) (c : Chord) (f : Form) : Seq :=
   .csi params final
 
 /-- The Shift work-around vaxis documents: a report with no text whose modifiers (locks aside) are
-    exactly Shift and whose key is printable gets the upper-cased key as text. -/
+    exactly Shift and whose key is printable gets as text the character Shift produces: the shifted
+    code the report carries if it carries a printable one, else the upper-cased key. -/
 def shiftFix (u : Uni) (k : Key) : Key :=
   if k.text = [] ∧ stripLocks k.mods = shiftBit ∧ u.isPrint k.keycode = true then
-    { k with text := strOfRune (u.toUpper k.keycode) } else k
+    { k with text := strOfRune (if u.isPrint k.shifted = true then k.shifted else u.toUpper k.keycode) } else k
 
 def kittyExpected (u : Uni) (c : Chord) (f : Form) : Key :=
   shiftFix u {
@@ -183,7 +184,7 @@ def matchSpec (u : Uni) (k : Key) (key : Int) (m : Nat) : Prop :=
   (k.shifted = key ∧ M = unshift K) ∨
   (k.base = key ∧ M = K) ∨
   (u.isLetter key = false ∧ u.isGraphic key = true ∧ (k.keycode = key ∨ k.shifted = key) ∧ unshift M = unshift K) ∨
-  (M &&& shiftBit ≠ 0 ∧ u.isLower key = true ∧ k.text = strOfRune (u.toUpper key) ∧ unshift M = unshift K)
+  (M &&& shiftBit ≠ 0 ∧ u.isLower key = true ∧ u.toUpper key ≠ key ∧ k.text = strOfRune (u.toUpper key) ∧ unshift M = unshift K)
 
 instance (u : Uni) (k : Key) (key : Int) (m : Nat) : Decidable (matchSpec u k key m) := by
   unfold matchSpec; exact inferInstance
